@@ -741,9 +741,9 @@ class GraphParser:
                     m_info.append((mem, offset, ttype))
                     m_expr.append(f"{mem}{offset}:{ttype}")
                 this = r'\b%s%s:%s\b' % (
-                    name,
+                    re.escape(name),
                     re.escape(offset),
-                    trig
+                    re.escape(trig)
                 )
                 if mem_all:
                     that = '(%s)' % '&'.join(m_expr)
